@@ -163,6 +163,40 @@ class C06(Check):
                 little = bits.startswith("le:")
                 if little:
                     bits = bits[3:]
+                if op in ("generate-np", "correct-np", "generate-np-held"):
+                    import numpy
+
+                    if op == "generate-np-held":
+                        a0, b0 = (int(x) for x in bits.split(":"))
+                        held = []
+                        for m in range(a0, b0):
+                            dt = [int, numpy.uint8, bool, numpy.int64][m % 4]
+                            want = [int(x) for x in cls.generate(int2ba(m, k)).tolist()]
+                            held.append((m, cls.generate(numpy.array([int(x) for x in int2ba(m, k).tolist()], dtype=dt)), want))
+                        for m, garr, want in held:
+                            if [int(x) & 1 for x in garr.tolist()] != want:
+                                fail("C06.result-aliased", c, f"{c}: array returned by generate() for message {m} changed after later generate() calls", None)
+                                break
+                    else:
+                        dtn, _, b01 = bits.partition(":")
+                        arr = numpy.array([int(x) for x in b01], dtype={"int64": int, "uint8": numpy.uint8, "bool": bool}[dtn])
+                        if op == "generate-np":
+                            want = [int(x) for x in cls.generate(bitarray(b01)).tolist()]
+                            try:
+                                got = [int(x) & 1 for x in cls.generate(arr).tolist()]
+                            except Exception as e:
+                                got = type(e).__name__
+                            if got != want:
+                                fail("C06.container", c, f"call #{i}: {c}.generate(ndarray {dtn} {b01}) = {got}, with a bitarray message {want}", None)
+                        else:
+                            wi2 = int(b01, 2)
+                            near = [x for x in cs if bin(x ^ wi2).count("1") <= 1]
+                            got = [int(x) & 1 for x in cls.correct_numpy_array(arr).tolist()]
+                            if near and got != [int(x) for x in format(near[0], f"0{n}b")]:
+                                fail("C06.single-error-repair", c, f"call #{i}: {c}.correct_numpy_array({dtn} {b01}) = {got}", None)
+                    res["evals"] += 1
+                    ops_at[0] = i
+                    continue
                 if op == "bad":
                     for f in (cls.check, cls.generate) + ((cls.check_and_correct,) if ham else ()):
                         try:
@@ -231,6 +265,42 @@ class C06(Check):
                 fail("C06.distinct-codewords", c, f"{c}: {len(cs)} distinct encoder outputs for {1 << k} messages", [[c, "check", "0" * n]])
             a, b = case["range"]
             pats = {w: list(itertools.combinations(range(n), w)) for w in range(1, d)}
+            import numpy
+
+            held = []  # (message, array returned by generate for an ndarray message): must stay what it was, whatever is encoded later
+            for m in range(a, b):
+                dt = [int, numpy.uint8, bool, numpy.int64][m % 4]
+                marr = numpy.array([int(x) for x in int2ba(m, k).tolist()], dtype=dt)
+                try:
+                    garr = cls.generate(marr)
+                    gl = [int(x) & 1 for x in garr.tolist()]
+                    res["evals"] += 1
+                    want = [int(x) for x in cls.generate(int2ba(m, k)).tolist()]
+                    if gl != want:
+                        fail("C06.container", c, f"{c}.generate(ndarray dtype={numpy.dtype(dt).name} of {int2ba(m, k).to01()}) = {gl}, with a bitarray message {want}",
+                             [[c, "generate-np", numpy.dtype(dt).name + ":" + int2ba(m, k).to01()]])
+                    held.append((m, garr, want))
+                except Exception as e:
+                    if dt is int:
+                        fail("C06.container", c, f"{c}.generate(int ndarray) raised {type(e).__name__}: {e}", [[c, "generate-np", "int64:" + int2ba(m, k).to01()]])
+                if ham:
+                    cwl = [int(x) for x in cls.generate(int2ba(m, k)).tolist()]
+                    for pos in (m % n, (m * 7 + 3) % n):
+                        rxl = list(cwl)
+                        rxl[pos] ^= 1
+                        for dt2 in (int, numpy.uint8, bool):
+                            arr = numpy.array(rxl, dtype=dt2)
+                            rep = cls.correct_numpy_array(arr)
+                            res["evals"] += 1
+                            if [int(x) & 1 for x in rep.tolist()] != cwl:
+                                fail("C06.single-error-repair", c, f"{c}.correct_numpy_array(dtype={numpy.dtype(dt2).name}) of {cwl} with bit {pos} inverted returned "
+                                     f"{[int(x) & 1 for x in rep.tolist()]}", [[c, "correct-np", numpy.dtype(dt2).name + ":" + "".join(map(str, rxl))]])
+                    res["cov"].add(f"{c}|ndarray-containers")
+            for m, garr, want in held:
+                if [int(x) & 1 for x in garr.tolist()] != want:
+                    fail("C06.result-aliased", c, f"{c}: the array generate() returned for message {int2ba(m, k).to01()} changed after later generate() calls: now "
+                         f"{[int(x) & 1 for x in garr.tolist()]}, was {want}", [[c, "generate-np-held", f"{a}:{b}"]])
+                    break
             for m in range(a, b):
                 msg = int2ba(m, k)
                 cw = bitarray(cls.generate(msg).tolist())
